@@ -130,6 +130,13 @@ def cond_designs():
     D["cond_shared_callee"] = {"items": [M("A", iw=0), M("B", iw=0, ow=0), T("T0", [cond([[call("A")], [call("A"), call("B")], [call("B")]], priority=True)]), T("T1", [call("A")])]}
     D["cond_two_blocks"] = {"items": [M("A", iw=0), M("B", iw=0, ow=0), T("T0", [cond([[call("A")]], nonblocking=True), cond([[call("B")], []], default=[wit("comb")])])]}
     D["cond_nested"] = {"items": [M("A", iw=0), M("B", iw=0, ow=0), M("C", iw=0, ow=0), T("T0", [cond([[call("A"), cond([[call("B")]], default=[call("C")])], [call("C")]])])]}
+    # condition() in a method reached through a chain of calls, with the guarded call above the direct caller
+    D["cond_in_method_depth2_guarded"] = {"items": [M("A", iw=0), M("B", iw=0, ow=0), M("inner", [cond([[call("A")], [call("B")]], nonblocking=True)], iw=0, ow=0),
+                                                     M("outer", [call("inner")], iw=0, ow=0), T("T0", [wit("comb"), If([call("outer")])])]}
+    D["cond_in_method_depth3_enable"] = {"items": [M("A", iw=0), M("inner", [cond([[call("A")]], default=[wit("comb")])], iw=0, ow=0), M("mid", [call("inner")], iw=0, ow=0),
+                                                    M("outer", [call("mid")], iw=0, ow=0), T("T0", [call("outer", en=True)])]}
+    D["cond_in_method_depth2_switch"] = {"items": [M("A", iw=0), M("B", iw=0, ow=0), M("inner", [cond([[call("A")], [call("B")]], priority=True)], iw=0, ow=0),
+                                                    M("outer", [call("inner")], iw=0, ow=0), T("T0", [Sw(1, [("1", [call("outer")])], default=[wit("comb")])])]}
     D["cond_in_if"] = {"items": [M("A", iw=0), M("B", iw=0, ow=0), M("C", iw=0, ow=0), T("T0", [If([cond([[call("A")], [call("B")]], nonblocking=True)], els=[call("C")])])]}
     D["cond_calls_in_if"] = {"items": [M("A", iw=0), M("B", iw=0, ow=0), T("T0", [cond([[If([call("A")], els=[call("B")])], [call("B", en=True)]], priority=True)])]}
     return D
